@@ -110,6 +110,9 @@ type Session struct {
 	ShmDeferred  int // pointer batches held until end of stream (write-ahead ops)
 	ShmErr       error
 	advertised   bool
+	// ExtInput, when set, may replace a (non-cancel) stream input by an
+	// external-location pointer batch the server has to fetch and resolve.
+	ExtInput func(b arrow.RecordBatch) arrow.RecordBatch
 	// Pipeline: how many following unary-shaped requests the client writes
 	// before it reads the response of the current one (0 = lockstep).
 	Pipeline   int
@@ -402,6 +405,9 @@ func (s *Session) runOp(op *Op) *OpResult {
 		// would be the client's own to reclaim, not pointers it "received".
 		if !cancel && k >= 1 && op.WriteAhead == 0 {
 			b = s.viaShm(b)
+		}
+		if !cancel && s.ExtInput != nil {
+			b = s.ExtInput(b)
 		}
 		err := iw.Write(b)
 		b.Release()
